@@ -4,6 +4,7 @@ import (
 	"bytes"
 	"encoding/json"
 	"fmt"
+	"strings"
 	"testing"
 
 	vk "github.com/dtn7/dtn7-go/pkg/verifkit"
@@ -230,8 +231,28 @@ func TestVerifC04BuildFromMap(t *testing.T) {
 	for _, v := range vals {
 		cases = append(cases, vk.C04Case{Class: "not an object", Input: []byte(v)})
 	}
+	for _, in := range vfBuildSubsets() {
+		cases = append(cases, vk.C04Case{Class: "subset of a valid request", Input: []byte(in)})
+	}
 	vk.RunC04(t, vk.C04Spec{Target: "buildfrommap", Unit: vk.Unit{Property: "C04", Name: "c04.buildfrommap",
-		Rule: "JSON text -> encoding/json -> BuildFromMap (what a REST /build request does): every documented key x values of every JSON type (null, bool, numbers incl. overflow, strings incl. 60 KB, arrays, objects, nesting), alone and added to a valid request; in child processes; violation as c04.bundle; distinct by input hash"}}, cases)
+		Rule: "JSON text -> encoding/json -> BuildFromMap (what a REST /build request does): every documented key x values of every JSON type (null, bool, numbers incl. overflow, strings incl. 60 KB, arrays, objects, nesting), alone and added to a valid request, and every subset of the keys of a valid request with all block kinds (incomplete requests: no payload, no lifetime, no timestamp ...); in child processes; violation as c04.bundle; distinct by input hash"}}, cases)
+}
+
+// vfBuildSubsets returns every subset of the key/value pairs of a valid, rich build request as JSON objects.
+func vfBuildSubsets() []string {
+	pairs := []string{`"source":"dtn://a/b"`, `"destination":"dtn://c/d"`, `"report_to":"dtn://a/r"`, `"creation_timestamp_now":true`, `"lifetime":"1h"`,
+		`"payload_block":"x"`, `"hop_count_block":30`, `"bundle_age_block":0`, `"previous_node_block":"dtn://p/"`}
+	var out []string
+	for m := 0; m < 1<<len(pairs); m++ {
+		var sel []string
+		for i, p := range pairs {
+			if m&(1<<i) != 0 {
+				sel = append(sel, p)
+			}
+		}
+		out = append(out, "{"+strings.Join(sel, ",")+"}")
+	}
+	return out
 }
 
 func FuzzVerifC04Bundle(f *testing.F) {
